@@ -302,8 +302,29 @@ impl<'a> Gen<'a> {
     /// half-way (`whole_run_only` = false) and may come back, or single saves fail (a fault
     /// armed right before a commit, which is made a learning commit).
     fn inject_save_faults(&mut self, ops: &mut Vec<Op>, whole_run_only: bool) {
-        let kind = if whole_run_only { self.rng.weighted(&[50, 0, 50]) } else { self.rng.weighted(&[30, 30, 40]) };
+        let kind = if whole_run_only { self.rng.weighted(&[50, 0, 50, 0]) } else { self.rng.weighted(&[22, 22, 34, 22]) };
         match kind {
+            3 => {
+                // a user file is damaged (torn, malformed, of the wrong shape) before the first
+                // context exists or half-way, as another host's interrupted save leaves it
+                let file = if self.rng.pct(75) { FileId::Store } else { FileId::Autocorrect };
+                let st = match self.rng.weighted(&[40, 30, 30]) {
+                    0 => self.malformed_doc(),
+                    1 => self.wrong_shape_doc(),
+                    _ => FileSt::Text(String::new()),
+                };
+                let at = if self.rng.coin() { 0 } else { self.rng.range(1, ops.len() as u64) as usize };
+                ops.insert(at.min(ops.len()), Op::SetFile { file, st, mt: Mt::Now });
+                // learning commits meet the damaged file
+                let mut out = Vec::with_capacity(ops.len());
+                for op in ops.drain(..) {
+                    match op {
+                        Op::Commit { h, .. } if self.rng.pct(40) => out.push(Op::Commit { h, idx: Idx::Other(self.rng.next_u64() as u8) }),
+                        o => out.push(o),
+                    }
+                }
+                *ops = out;
+            }
             0 => {
                 let st = if self.rng.coin() { DirState::Missing } else { DirState::ReadOnly };
                 ops.insert(0, Op::SetDir { st });
@@ -633,6 +654,11 @@ impl<'a> Gen<'a> {
             target = format!("{}{}", head, tail);
         }
         target = target.chars().take(max_len).collect();
+        // the first key of a word is the most common event of all: one- and two-character
+        // targets (what is left of any word of a warm context that began with the same letters)
+        if !shrinking && self.rng.pct(12) {
+            target = target.chars().take(self.rng.range(1, 2) as usize).collect();
+        }
         if target.is_empty() {
             target = "a".into();
         }
@@ -738,10 +764,17 @@ impl<'a> Gen<'a> {
         let n_exec = self.rng.range(1, 3) as u8;
         for e in 1..=n_exec {
             let h = e;
-            let mut v = vec![Op::Spawn { h, cfg }];
             // a long session now and then: the memo grows past any plausible bound
             let long_session = e == 1 && self.rng.pct(16);
             let style = if long_session { 1 } else { self.rng.weighted(&[40, 40, 20]) };
+            // "the configuration": a warm context may have composed its earlier words under
+            // other option settings; update_engine (idle, same layout) brings it to `cfg`
+            // before the target is typed
+            let mut warm_cfg = cfg;
+            if style >= 1 && self.rng.pct(30) {
+                self.live_option_flip(&mut warm_cfg, &[ENGLISH, ENGLISH, ANSI, SMART_QUOTE, PHON_SUG]);
+            }
+            let mut v = vec![Op::Spawn { h, cfg: warm_cfg }];
             if style >= 1 {
                 // warm context: earlier words that poison the memo
                 let k = if long_session {
@@ -772,6 +805,24 @@ impl<'a> Gen<'a> {
                             }
                         }
                     }
+                }
+                if self.rng.pct(30) {
+                    // the last warm word begins like the target and is erased key by key
+                    // (typing, erasing everything and starting again is a history too)
+                    let w: String = format!("{}{}", target, self.random_letters(0, 3)).chars().take(max_len + 3).collect();
+                    self.type_text(&mut v, h, &w, Sel::Presel);
+                    v.push(Op::Drain { h });
+                }
+                if warm_cfg != cfg {
+                    if self.rng.pct(30) {
+                        // (not only once)
+                        let mut mid = warm_cfg;
+                        self.live_option_flip(&mut mid, &[ENGLISH, ANSI, SMART_QUOTE, PHON_SUG]);
+                        v.push(Op::Update { h, cfg: mid });
+                    }
+                    // (no finish request in front: every warm word has been ended, and a
+                    // finish request would wipe what a word ended otherwise left behind)
+                    v.push(Op::Update { h, cfg });
                 }
                 if style == 2 {
                     v.push(Op::Restart { h });
@@ -862,7 +913,9 @@ impl<'a> Gen<'a> {
                     let mut t = Vec::new();
                     if at > 0 && h != 4 {
                         // the context exists already: it re-loads its configuration while idle
-                        t.push(Op::Finish { h });
+                        if self.rng.coin() {
+                            t.push(Op::Finish { h });
+                        }
                         t.push(Op::Update { h, cfg });
                     }
                     t.extend(tail);
@@ -875,7 +928,7 @@ impl<'a> Gen<'a> {
                     // every context that exists re-loads while the list is away
                     let mut mid: Vec<Vec<Op>> = Vec::new();
                     for t in &second {
-                        if let (Some(Op::Finish { h }), Some(Op::Update { .. })) = (t.first(), t.get(1)) {
+                        if let Some(Op::Finish { h }) | Some(Op::Update { h, .. }) = t.first() {
                             if self.rng.pct(85) {
                                 mid.push(vec![Op::Finish { h: *h }, Op::Update { h: *h, cfg }]);
                             }
@@ -981,7 +1034,7 @@ impl<'a> Gen<'a> {
     // ------------------------------------------------------------------ C06
 
     fn gen_session_reset(&mut self) -> Plan {
-        let cfg = if self.rng.pct(45) {
+        let mut cfg = if self.rng.pct(45) {
             self.phonetic_cfg(3, 67, 30, 75)
         } else {
             let mut c = self.fixed_cfg(55, 2, 58, 40);
@@ -1052,7 +1105,9 @@ impl<'a> Gen<'a> {
         }
         // history H
         let n = self.rng.range(1, 10) as usize;
+        let h_start = ops.len();
         word_ops(self, &mut ops, n);
+        let h_ops: Vec<Op> = ops[h_start..].to_vec();
         // terminating event
         match self.rng.weighted(&[30, 25, 20, 25]) {
             0 => ops.push(Op::Commit { h: 0, idx: Idx::Rel(self.rng.next_u64() as u8) }),
@@ -1060,15 +1115,41 @@ impl<'a> Gen<'a> {
             2 => ops.push(Op::Bs { h: 0, ctrl: true }),
             _ => ops.push(Op::Drain { h: 0 }),
         }
+        // "a newly created context with the same configuration": in a fifth of the runs the
+        // configuration is not the one the used context composed its earlier words with (an
+        // option switched by update_engine while idle, same layout); what the earlier words
+        // left behind was computed under the old setting
+        let flippable: Vec<u16> = if cfg.is_phonetic() {
+            vec![ENGLISH, ANSI, SMART_QUOTE, PHON_SUG, ENGLISH, SMART_QUOTE]
+        } else {
+            vec![VOWEL, CHANDRA, KAR, KAR, OLD_REPH, NUMPAD, KAR_ORDER, ENGLISH, SMART_QUOTE, FIXED_SUG]
+        };
+        let switching = self.rng.pct(20);
+        if switching {
+            self.live_option_flip(&mut cfg, &flippable);
+            ops.push(Op::Update { h: 0, cfg });
+        }
         ops.push(Op::Fork { h: 0 });
         // continuation K
         let k = self.rng.range(1, 5);
         for _ in 0..k {
+            if switching && self.rng.pct(25) {
+                // ... and again between two words of the continuation (on both contexts)
+                ops.push(Op::Finish { h: 0 });
+                self.live_option_flip(&mut cfg, &flippable);
+                ops.push(Op::Update { h: 0, cfg });
+            }
             if self.rng.pct(10) {
                 ops.push(Op::Bs { h: 0, ctrl: false }); // backspace while idle
             }
             let n = self.rng.range(1, 8) as usize;
-            word_ops(self, &mut ops, n);
+            if !h_ops.is_empty() && self.rng.pct(22) {
+                // the same word (or a beginning of it) again
+                let upto = if self.rng.coin() { h_ops.len() } else { self.rng.range(1, h_ops.len() as u64) as usize };
+                ops.extend(h_ops[..upto].iter().cloned());
+            } else {
+                word_ops(self, &mut ops, n);
+            }
             match self.rng.weighted(&[30, 20, 15, 20, 15]) {
                 0 => ops.push(Op::Commit { h: 0, idx: Idx::Rel(self.rng.next_u64() as u8) }),
                 1 => ops.push(Op::Finish { h: 0 }),
